@@ -140,6 +140,13 @@ theorem table_keys_nodup (t : Table) (ws : List (Nat × Bytes)) (h : (t.map (·.
       have := (List.mem_filter.mp hx).2
       simpa using this
 
+/-- formatters for different formats do not disturb each other: in whichever order two of them store
+their bytes, every sink reads the same -/
+theorem table_commutes (t : Table) (a b : Nat × Bytes) (h : a.1 ≠ b.1) (g : Nat) :
+    format (writes t [a, b]) g = format (writes t [b, a]) g := by
+  simp only [writes, List.foldl_cons, List.foldl_nil, table_lww]
+  by_cases h1 : g = a.1 <;> by_cases h2 : g = b.1 <;> simp_all
+
 /-- an event formatted by nobody has bytes for no format: every sink refuses it -/
 theorem table_empty (g : Nat) : format [] g = none := rfl
 
